@@ -49,6 +49,16 @@ def check_case(ctx, case):
         impl_sel = [list(map(int, ok.transform_coords_pair.find_closest(i, ok.range, ok._maxp)))
                     for i in range(len(targets))]
     mr = krig.ModelRun(ctx, case, ok)
+    # the observations the interpolation works on: every distinct location once (first occurrence, original order)
+    kept = np.asarray(ok.coords.coords, float)
+    if kept.shape != mr.coords.shape or not np.array_equal(kept, mr.coords) or \
+            not np.array_equal(np.asarray(ok.values, float), mr.values):
+        ctx.violation('observations', 'the instance keeps %d observations, the %d given ones contain %d distinct '
+                      'locations (first occurrences); first difference at row %s' % (
+                          len(kept), len(case['values']), len(mr.coords),
+                          next((k for k in range(min(len(kept), len(mr.coords)))
+                                if not np.array_equal(kept[k], mr.coords[k])), min(len(kept), len(mr.coords)))), case)
+        return
     mr.ask_neighbours()
     ctx.lean.flush()
     ctx.count('model:' + case['vario']['model'])
